@@ -392,7 +392,7 @@ def replay_cases(run: Run, cases: list, stats: dict, base: str, pool, cli_n: int
         batches = []
         for v in CLI_VARIANTS:
             pool_cases = [(i, c) for i, c in numbered if c["origin"] in v["origins"] and c["part"] == "shape" and c["cwdrel"]
-                          and c["enc"]["full"]["t"] != "raise" and not c["pdoc"]]
+                          and c["enc"]["full"]["t"] != "raise" and not P.patched(c)]
             if not pool_cases:
                 continue
             pick = rnd.sample(pool_cases, min(cli_n, len(pool_cases)))
@@ -417,7 +417,7 @@ def vacuity(cases: list):
         problems.append("parts")
     if seen(lambda c: c["origin"]) != {json.dumps(o) for o in ("static", "inspect_src", "inspect_nosrc", "builtin", "namespace")}:
         problems.append("origins")
-    for flag in ("encode", "decode", "names", "render", "full"):
+    for flag in ("encode", "names", "full"):      # (decode and render: no failing shape is left since the decoder fixes)
         if {c["clean"][flag] for c in cases} != {True, False}:
             problems.append(f"clean.{flag} takes one value only")
     steps = {s for c in cases for s in c["spine"]}
@@ -429,10 +429,8 @@ def vacuity(cases: list):
         problems.append("slots")
     if {c["section"] for c in cases if c["part"] == "doc"} != set(P.GOOGLE):
         problems.append("docstring sections")
-    if {c["dec"]["exc"] for c in cases if not c["dec"]["ok"]} - {"encode"} != {"KeyError", "TypeError"}:
-        problems.append("decode failures")
-    if not any(c["dec"]["ok"] and not c["same"]["full"] for c in cases) or not any(c["dec"]["ok"] and not c["render"] for c in cases):
-        problems.append("full-form / render differences")
+    if not any(c["dec"]["ok"] and not c["same"]["full"] for c in cases):
+        problems.append("full-form differences")
     if problems:
         die(f"C08: vacuous enumeration: {problems}")
     # the expression classes the templates do not build (model table vs the real module)
